@@ -167,6 +167,7 @@ def make_run(W, shape, known_active=None, replay_info=None):
             return nm[nm.index("["):] if "[" in nm else nm      # (the prefix is the name of the first registered function)
 
         out += [full_outcome(lambda: res(c, f), LOG) for c, f in PROBES[:4]]               # and the public resolve()
+        out += [full_outcome(lambda: ov.next(mkarg(c, f)), LOG) for c, f in PROBES[:4]]    # and next() (from outside a method: a fresh lookup)
         return out
 
     def run_interrupt(ctx):
